@@ -45,12 +45,23 @@ def main():
         rc, o = sh("/venv/bin/python -m pytest -q -p no:cacheprovider 2>&1 | tail -1", cwd=wt, env=env, timeout=1200)
         ran["tests_mutated"] = o.strip()[:120]
     finally:
-        sh(f"git -C {REPO} worktree remove --force {wt}")
+        if "--via-worktree" not in sys.argv:
+            sh(f"git -C {REPO} worktree remove --force {wt}")
     confirmed = ran.get("demo_clean_rc") == 0 and ran.get("patch_applies") and ran.get("demo_mutated_rc") not in (0, None) \
         and ran.get("tests_mutated", "").startswith("140 passed")
     ran["confirmed"] = bool(confirmed)
     checks = {}
-    if confirmed:
+    if confirmed and "--via-worktree" in sys.argv:
+        # the patched scratch worktree is still there: run the checks against it (used while other jobs need /repo untouched)
+        try:
+            for p in [prop] + also:
+                t0 = time.time()
+                rc, o = sh(f"./check {p} --tier {tier}", cwd=VERIF, env=dict(os.environ, ODX_REPO=str(wt)), timeout=7200)
+                lines = [l for l in o.splitlines() if l.startswith("VIOLATION") or l.startswith("KNOWN-FINDING") or l.startswith("[")]
+                checks[p] = {"exit": rc, "wall_s": round(time.time() - t0, 1), "lines": [l[:300] for l in lines[:8]], "via": "ODX_REPO=scratch worktree"}
+        finally:
+            sh(f"git -C {REPO} worktree remove --force {wt}")
+    elif confirmed:
         rc, o = sh(f"git -C {REPO} status --short")
         assert o.strip() == "", "/repo is not clean: " + o
         rc, o = sh(f"git -C {REPO} apply {src/'patch.diff'}")
